@@ -520,7 +520,7 @@ def run(ctx, replay=None):
                        "sweep_mismatch": [[x for x in sweep if not x.get("err")][si] for si, _ in res["swmism"][:1]],
                        "make_log": info.get("make_log", "")[-1500:]}, no_input=True)
     assumptions = ["ticks are injected through the server's event channel; time.Ticker is not exercised (periods of 1000 h and more)",
-                   "the live-ticker count is read from the goroutine dump after waiting (up to 2 s) for stopped goroutines to leave",
+                   "the live-ticker count is read from the goroutine dump after waiting (up to 5 s) for stopped goroutines to leave",
                    "answers of the data plane are scripted per tick (error, empty, partial, extra, duplicate reports)"]
     if not sweep:
         assumptions.append("queryMultiURR's chunking loop was NOT executed (no simulated netlink endpoint in the overlay): "
